@@ -65,13 +65,16 @@ def do_run(dirs):
         rc, o = sh("git apply %s" % os.path.join(d, "patch.diff"), "/repo")
         if rc != 0:
             print(d, "patch does not apply", o); continue
+        # SEED_CHECK=<Cxx> runs the check of another property against this change (cross-property detection)
+        other = os.environ.get("SEED_CHECK")
         try:
             tier = os.environ.get("SEED_TIER", "quick")
-            rc, o = sh("./check %s --tier %s" % (prop, tier), VERIF, timeout=7200)
+            rc, o = sh("./check %s --tier %s %s" % (other or prop, tier, os.environ.get("SEED_ARGS", "")), VERIF, timeout=7200)
         finally:
             sh("git checkout -- .", "/repo")
         viol = [l for l in o.splitlines() if l.startswith("VIOLATION") or "  violation:" in l]
-        meta.setdefault("detection", {})[tier] = {"exit": rc, "detected": rc == 1, "violations": viol[:6]}
+        key = tier if not other else "%s via %s" % (tier, other)
+        meta.setdefault("detection", {})[key] = {"exit": rc, "detected": rc == 1, "violations": viol[:6]}
         json.dump(meta, open(os.path.join(d, "meta.json"), "w"), indent=1)
         print(os.path.basename(d), "exit", rc, "DETECTED" if rc == 1 else "missed", (viol[1] if len(viol) > 1 else "")[:160])
 
